@@ -179,32 +179,42 @@ func pointOnSegment(p, l1, l2 Point) bool {
 //     Return: the shortest distance from P to S
 // from http://geomalgorithms.com/a02-_lines.html
 func distPointToSegment(p, segStart, segEnd Point) float64 {
+	// Measure from the end point with the smaller coordinates: the
+	// differences formed below then lose the least to rounding when one end
+	// of the segment is astronomically far away.
+	if math.Max(math.Abs(segStart.X), math.Abs(segStart.Y)) > math.Max(math.Abs(segEnd.X), math.Abs(segEnd.Y)) {
+		segStart, segEnd = segEnd, segStart
+	}
 	v := pointSubtract(segEnd, segStart)
 	w := pointSubtract(p, segStart)
 
 	// The dot products below overflow (or underflow to zero) for coordinate
-	// differences beyond about 1e154 (below 1e-154). In that case everything is
-	// first scaled by a power of two, which is exact.
-	if m := math.Max(math.Max(math.Abs(v.X), math.Abs(v.Y)), math.Max(math.Abs(w.X), math.Abs(w.Y))); m > 1e150 || (m > 0 && m < 1e-150) {
-		if _, e := math.Frexp(m); !math.IsInf(m, 0) {
-			scale := func(q Point) Point { return Point{X: math.Ldexp(q.X, -e), Y: math.Ldexp(q.Y, -e)} }
-			return math.Ldexp(distPointToSegment(scale(p), scale(segStart), scale(segEnd)), e)
-		}
+	// differences beyond about 1e154 (below 1e-154). In that case the two
+	// difference vectors are first scaled by a power of two, which is exact,
+	// and the result is scaled back.
+	e := 0
+	if m := math.Max(math.Max(math.Abs(v.X), math.Abs(v.Y)), math.Max(math.Abs(w.X), math.Abs(w.Y))); (m > 1e150 || (m > 0 && m < 1e-150)) && !math.IsInf(m, 0) {
+		_, e = math.Frexp(m)
+		v = Point{X: math.Ldexp(v.X, -e), Y: math.Ldexp(v.Y, -e)}
+		w = Point{X: math.Ldexp(w.X, -e), Y: math.Ldexp(w.Y, -e)}
 	}
 
+	// The distances are formed from w (= p - segStart) and v with math.Hypot:
+	// squaring a component that is far smaller than the other one (a segment
+	// reaching out to 1e200 next to ordinary coordinates) underflows to zero,
+	// and a vertex 100 units off such a segment was "on" it.
 	c1 := dot(w, v)
 	if c1 <= 0. {
-		return d(p, segStart)
+		return math.Ldexp(math.Hypot(w.X, w.Y), e) // the distance to segStart
 	}
 
 	c2 := dot(v, v)
 	if c2 <= c1 {
-		return d(p, segEnd)
+		return math.Ldexp(math.Hypot(w.X-v.X, w.Y-v.Y), e) // the distance to segEnd
 	}
 
 	b := c1 / c2
-	pb := Point{segStart.X + b*v.X, segStart.Y + b*v.Y}
-	return d(p, pb)
+	return math.Ldexp(math.Hypot(w.X-b*v.X, w.Y-b*v.Y), e)
 }
 
 func pointSubtract(p1, p2 Point) Point {
